@@ -163,7 +163,7 @@ class ESSearch(ABC):
 
             # if something went wrong with the acquisition function, random search is performed
             if z_new is None or z_new.size == 0:
-                z_candidates = np.random.rand(u_new.shape[0])
+                z_new = np.random.rand(u_new.shape[0])
                 self.logger.warn(
                     "bads:es_search: Something went wrong with the acquisition function, random search is performed"
                 )
@@ -188,7 +188,8 @@ class ESSearch(ABC):
             us = us_candidates[z_idx[0:N]]  # zlist in Matlab is not used
 
             if i < self.n_search_iter - 1:
-                frac = n_new / ntest
+                # an empty generation has no successful candidate
+                frac = n_new / ntest if ntest > 0 else 0.0
                 # Update scale parameter
                 if i > 0:
                     self.scale = self.scale * np.exp(
